@@ -39,9 +39,9 @@ def _configs(tier):
     # first group: minimum-image supercells (chains / layers); second group: the small 3-d supercells, all of which are
     # smaller than the interaction range in some direction (keys carry 'imgdeg')
     if tier == 'quick':
-        return [('CHAIN8', 2, 3, 'nv'), ('CHAINAB5', 2, 3, 'nv'), ('SQ33', 2, 3, 'n'), ('TRI33', 1, 3, 'n'),
+        return [('CHAIN8', 2, 3, 'nv'), ('CHAINAB5', 2, 3, 'nv'), ('ZIGZAG4', 1, 3, 'nv'), ('SQ33', 2, 3, 'n'), ('TRI33', 1, 3, 'n'),
                 ('B2AB211sB', 2, 3, 'nv'), ('HCP211', 2, 3, 'nv'), ('FCC2I', 1, 3, 'n')]
-    return [('CHAIN8', 2, 3, 'nv'), ('CHAIN8', 2, 4, 'nv'), ('CHAINAB5', 2, 3, 'nv'), ('CHAINAB5', 3, 4, 'nv'), ('SQ33', 2, 3, 'nv'), ('SQ33', 2, 4, 'n'),
+    return [('CHAIN8', 2, 3, 'nv'), ('CHAIN8', 2, 4, 'nv'), ('ZIGZAG4', 1, 3, 'nv'), ('ZIGZAG4', 2, 4, 'nv'), ('CHAINAB5', 2, 3, 'nv'), ('CHAINAB5', 3, 4, 'nv'), ('SQ33', 2, 3, 'nv'), ('SQ33', 2, 4, 'n'),
             ('TRI33', 1, 3, 'nv'), ('TRI33', 2, 3, 'n'),
             ('B2AB211sB', 2, 3, 'nv'), ('B2AB211sA', 2, 3, 'nv'), ('HCP211', 2, 4, 'nv'), ('B2AB211m', 2, 3, 'nv'),
             ('FCCskew4', 2, 3, 'nv'), ('FCCO211sPd', 2, 3, 'nv'), ('FCC2I', 2, 3, 'nv'), ('FCC2I', 2, 4, 'n'),
